@@ -16,7 +16,7 @@ def string(): return ''.join(R.choice(CH) for _ in range(R.randint(0, 8))).repla
 def integer(): return R.choice([0, 1, -1, 7, 42, -42, 10 ** 6, -10 ** 9, 2 ** 62, -2 ** 62, R.randrange(-1000, 1000)])
 def flt():
     k = R.random()
-    if k < 0.4: return R.choice([0.5, 1.5, -2.25, 3.0, 100.125, 0.1, 123456.789])
+    if k < 0.4: return R.choice([0.5, 1.5, -2.25, 3.0, 100.125, 0.1, 123456.789, 1.5e-07, -1.5e-09, 2.5e-05, 1.25e-06, 1.234567e-05, 6.62607015e-34, 1.5e+22, 2.5e+300, 4.5e-06])
     if k < 0.7: return round(R.uniform(-1000, 1000), R.randint(1, 6))
     return struct.unpack('d', struct.pack('Q', R.getrandbits(64)))[0]
 def scalar():
@@ -29,13 +29,15 @@ def dct(depth):
         r = R.random()
         out[k] = scalar() if r < 0.55 else lst(1) if r < 0.8 else dct(depth - 1) if depth > 0 else scalar()
     return out
+import re
+NIX_FLOAT = re.compile(r'(([1-9][0-9]*\.[0-9]*)|(0?\.[0-9]+))([Ee][+-]?[0-9]+)?')
 def classify(v):
     """known findings: negative numbers as list elements (F-14), floats whose repr is not a Nix literal (F-15), control characters below 0x20 other than tab/LF/CR in strings (F-16)"""
     hits = set()
     def w(x, in_list):
         if isinstance(x, bool) or x is None: return
         if isinstance(x, (int, float)) and x < 0 and in_list: hits.add('F-14')
-        if isinstance(x, float) and ('e' in repr(x) or 'inf' in repr(x) or 'nan' in repr(x)): hits.add('F-15')
+        if isinstance(x, float) and not NIX_FLOAT.fullmatch(repr(abs(x))): hits.add('F-15')          # repr is not a Nix float literal (1e-07, 1e+22, inf, nan); 1.5e-07 IS one
         if isinstance(x, int) and not isinstance(x, bool) and not (-2 ** 63 <= x < 2 ** 63): hits.add('F-24')
         if isinstance(x, str) and any(ord(c) < 32 and c not in '\t\n\r' for c in x): hits.add('F-16')
         if isinstance(x, list): [w(y, True) for y in x]
